@@ -286,7 +286,102 @@ def run(res, tier):
     res.outside += ["equality of the produced data set with an uninterrupted run (needs whole runs); RRDP archives (C24)"]
     res.rule = ("one case = one (writer, reader) pair: z3 decides whether some crash point leaves a state the reader turns "
                 "into a failure of the next start; writer operation lists and reader reactions are extracted from MIR")
+    check_tmp_location(res, E)
     mprop.finish_engine(res, E)
+
+def _const_strs(path):
+    import os
+    import vcommon
+    src = open(os.path.join(vcommon.REPO, path)).read()
+    return dict(re.findall(r"const (\w+): &(?:'static )?str = \"([^\"]*)\";", src))
+
+
+def _join_const(p, leaf, consts):
+    """name of the directory a PathBuf was built with: the constant of the Path::join that produced it, else None"""
+    src = p.mem.get(leaf.loc) if isinstance(leaf, mir.Ref) else leaf
+    seen = 0
+    while isinstance(src, mir.Opq) and seen < 6:
+        seen += 1
+        for e in p.events:
+            if e.kind == "call" and isinstance(e.dest.get(()), mir.Opq) and e.dest.get(()).id == src.id:
+                if re.search(r"Path(Buf)?::join$", e.name) and len(e.args) > 1:
+                    a = e.args[1].get(())
+                    if isinstance(a, mir.Str):
+                        return a.s.strip('"')
+                    if isinstance(a, mir.Opq):
+                        m = re.search(r"const .*::(\w+)$", a.origin or "")
+                        return consts.get(m.group(1)) if m else None
+                    return None
+                return None
+        # through a deref of a local
+        nxt = None
+        for k, v in p.memo.items():
+            if isinstance(k, tuple) and k and k[0] == "deref" and isinstance(v.get(()), mir.Opq) and v.get(()).id == src.id:
+                for part in k[1]:
+                    if len(part) >= 3 and part[1] == "o":
+                        nxt = mir.Opq.registry.get(part[2])
+                    elif len(part) >= 3 and part[1] == "r":
+                        nxt = p.mem.get(part[2])
+        src = nxt
+    return None
+
+
+def check_tmp_location(res, E):
+    """Unfinished update data lives only where a later start sweeps it and never looks for publication points:
+    Store::tmp_file creates its file in <store>/TMP and store::Run::cleanup_tmp sweeps the same <store>/TMP."""
+    import nativetest
+    consts = _const_strs("src/store.rs")
+    made, swept = set(), set()
+    n = 0
+    body = E.prog.find("src/store.rs", "Store", "tmp_file")
+    for p in E.explore(body, max_visits=2, nomut=[r"."]):
+        for e in p.events:
+            if e.kind == "call" and re.search(r"NamedTempFile::new_in$|tempfile::.*new_in$|Builder::tempfile_in$", e.name) and e.args:
+                n += 1
+                made.add(_join_const(p, e.args[0].get(()), consts))
+    body = E.prog.find("src/store.rs", "Run", "cleanup_tmp")
+    for p in E.explore(body, max_visits=2, nomut=[r"."]):
+        for e in p.events:
+            if e.kind == "call" and re.search(r"cleanup_dir_tree$", e.name) and e.args:
+                n += 1
+                swept.add(_join_const(p, e.args[0].get(()), consts))
+    body = E.prog.find("src/store.rs", "StoredPoint", "update")
+    direct = 0
+    for p in E.explore(body, max_visits=2, nomut=[r"."]):
+        if p.kind != "return":
+            continue
+        upd = [e for e in p.events if e.kind == "call" and re.search(r"StoredPoint::_update$", e.name)]
+        tmpf = [e for e in p.events if e.kind == "call" and re.search(r"Store::tmp_file$", e.name)]
+        if upd:
+            n += 1
+            if not tmpf:
+                direct += 1
+    res.functions.append("routinator::store::{Store::tmp_file, Run::cleanup_tmp, StoredPoint::update} (MIR): where unfinished data is written / swept")
+    res.samples.append({"tmp_file_directory": sorted(map(str, made)), "swept_directory": sorted(map(str, swept)), "store_constants": consts})
+    res.distinct += n
+    repos = {v for k, v in consts.items() if re.search(r"RRDP|RSYNC", k)}
+    problem = None
+    if not made or not swept:
+        res.inconclusive.append("tmp location: temp-file creation (%d) or sweep (%d) not found" % (len(made), len(swept)))
+        return
+    if None in made or made != swept:
+        problem = "temporary files are created in %s but the start of a run sweeps %s" % (sorted(map(str, made)), sorted(map(str, swept)))
+    elif made & repos or any(m and any(r.startswith(m + "/") or r == m for r in repos) for m in made):
+        problem = "temporary files are created inside a repository tree (%s)" % sorted(made)
+    elif direct:
+        problem = "StoredPoint::update does not take its temporary file from Store::tmp_file"
+    if problem:
+        failed, passed, out = nativetest.run_native_test("native_c23_tmp", "c23_native_tmp_file_location")
+        m = re.search(r"C23-NATIVE-TMP (.*)", out)
+        res.evaluations += 1
+        fn = mprop.write_cex(res, "tmp_location", mir.Path(mir.State(), {}, "static"), E, problem + "\n\nnative replay: " + (m.group(1) if m else out[-1500:]))
+        if failed:
+            res.violation("mir:store:unfinished-data-outside-tmp", problem + ": a kill during an update leaves a partial file that is never swept and is "
+                          "scanned as a publication point by cleanup and dump; reproduced natively (%s)" % (m.group(1) if m else "test failed"), fn)
+        elif passed:
+            res.inconclusive.append("tmp location: %s - not reproduced natively" % problem)
+        else:
+            res.inconclusive.append("tmp location: %s - native replay could not be built" % problem)
 
 
 def native_replay(res):
